@@ -23,6 +23,14 @@ def main(argv):
     else:
         inputs = rb.domain_inputs(args.tier, args.seed, "XRBSKL")
     d = rb.workdir(PROP)
+    if args.replay and inputs[0].get("dom") == "E":
+        try:
+            from .c16 import edited_generic
+
+            edited_generic(rep, args, d, "tables", "BCT", "1", "2")
+        finally:
+            tlc.cleanup(d)
+        return rep.finish()
     try:
         res = rb.record_domain(inputs, d, jobs=args.jobs, shards=args.jobs, stages=True, heavy=70,
                                reload=bool(args.replay and inputs and inputs[0].get("reload")))
@@ -49,6 +57,13 @@ def main(argv):
                                   detail={"decision_path_blocks": v["path"], "env": v["env"], "history": "to_dict/from_dict between stages"})
             rep.coverage["reload_histories"] = {"behaviours": sum(r["ncases"] for r in res2), "product_states": out2["states"]}
             rep.coverage["states"] = rep.coverage.get("states", 0) + out2["states"] + stat2["states"]
+        if not args.replay:
+            # "... at every stage and after every renaming": the tables clause on graphs EDITED after restructuring - one-step edit
+            # histories enumerated by TLC (insert_block / control blocks / join_tails_and_exits, up to two successors merged into one new
+            # block), replayed on real objects
+            from .c16 import edited_generic
+
+            edited_generic(rep, args, d, "tables", "BCT", "1", "2")
         from . import tracefam
 
         tr = tracefam.run_traces(tracefam.trace_inputs(args.tier, args.seed) if not args.replay else inputs, "C06", d, args.jobs)
